@@ -150,3 +150,7 @@ def within_known(entry, viol):
     r = d / dm
     struct_ok = (k == 1.0 and 1 - EPS < r < 1.1 + EPS) or abs(k - r) <= TOL
     return struct_ok and 1 < k <= entry["max_ratio"] + 1e-9
+
+
+def fallback(item):
+    return [dict(seq=q, prelude=std_prelude(item["N"], item["npos"], item["nneg"])) for q in fallback_seqs(item)]
